@@ -26,7 +26,8 @@ RULE = ("every case drives the REAL ExecutionBuilder: a list of instrument defin
         "20 committed corpus cases (corpus/C04M; D1: rebate fee, exact spend to a zero balance, zero / negative balances and prices with fees of 100 % / 200 %, 1e-8 and 1e21 magnitudes) pin the edge behaviours (A1: name collision: last wins; unsupported kind only on the own exchange; dangling base / unit / re-keyed asset; absent and "
         "duplicate exchange; missing balance kills the exchange task; stray balance fails init; two exchanges mock + mock. A2, theorem review: latency 1000 / 2500 / 5000 ms = order executed, engine told `timeout`; 999 ms heard; "
         "a dead exchange answers `offline` at once; definitions violating WFAssets; two links interleaved with a foreign and an out-of-range request). A case is distinct by the SHA-1 of its op lines and non-trivial "
-        "when the implementation's observation blocks differ at least once")
+        "when the implementation's observation blocks differ at least once. "
+        "CONFIGURATION-SHAPE FAMILY (`cfg` cases, max(12, N/12) of them, own seed; generator only, same ops): 3-5 exchanges with at least one spot instrument each and the link shapes, by exchange INDEX order, that the random families produce rarely or never (quick, seed 1, before: 9 of 813 builds had two adjacent link-less exchanges, none had a linked exchange AFTER two link-less ones): two tracked-but-not-traded exchanges before the first mock; only the LAST / only a MIDDLE / only the FIRST exchange linked; link-less + live + mocks; nothing linked; add_* calls in index order or in reverse; then a buy and a sell on an own instrument of EVERY exchange index (linked or not) and one beyond the last. 2 committed corpus cases (corpus/C04M/cfg_1, cfg_2)")
 ASSUMPTIONS = [
     "generate_mock_exchange_instruments is private and its result is moved into a boxed future: it is observed only through behaviour - which names the mock exchange knows (never "
     "InstrumentInvalid for the own manager), which asset's balance a buy / sell on each instrument moves or reports insufficient, and its two panics; the entry fields the exchange never reads "
